@@ -770,10 +770,25 @@ func positions(x string) []string {
 	out = append(out, x)
 	switch t {
 	case parser.ValueTypeVector:
-		out = append(out, "abs("+x+")", "sum("+x+")", "topk(scalar("+x+"), a)", "("+x+") + a", "a + ("+x+")", "("+x+")", "-("+x+")", "sum by (l) ("+x+")",
-			"clamp_min(a, scalar("+x+"))", "("+x+") > bool 1", "("+x+") and a")
+		// as function argument (native and non-native hosts)
+		for _, h := range []string{"abs(%s)", "ceil(%s)", "clamp_min(%s, 1)", "clamp(%s, 0, 5)", "histogram_quantile(0.5, %s)", "scalar(%s)", "timestamp(%s)",
+			"sort(%s)", "absent(%s)", `label_replace(%s, "x", "$1", "l", "(.*)")`, "round(%s)"} {
+			out = append(out, fmt.Sprintf(h, x))
+		}
+		// as aggregation operand of every aggregation operator, and as its parameter
+		for _, h := range []string{"sum(%s)", "sum by (l) (%s)", "min without (l) (%s)", "max(%s)", "avg(%s)", "count(%s)", "group(%s)", "stddev(%s)", "stdvar(%s)",
+			"topk(1, %s)", "bottomk by (l) (1, %s)", "quantile(0.5, %s)", `count_values("v", %s)`,
+			"topk(scalar(%s), a)", "quantile(scalar(%s), a)"} {
+			out = append(out, fmt.Sprintf(h, x))
+		}
+		// either side of every class of binary operator
+		for _, op := range []string{"+", "> bool", "==", "atan2", "and", "or", "unless", "* on (l) group_left"} {
+			out = append(out, fmt.Sprintf("(%s) %s a", x, op), fmt.Sprintf("a %s (%s)", op, x))
+		}
+		out = append(out, "("+x+") + 1", "1 + ("+x+")", "("+x+")", "-("+x+")", "clamp_min(a, scalar("+x+"))", "sum(topk(1, "+x+")) + 1")
 	case parser.ValueTypeScalar:
-		out = append(out, "vector("+x+")", "sum(vector("+x+"))", "topk("+x+", a)", "("+x+") + a", "a + ("+x+")", "("+x+")", "-("+x+")", "clamp_min(a, "+x+")", "("+x+") + 1")
+		out = append(out, "vector("+x+")", "sum(vector("+x+"))", "topk("+x+", a)", "quantile("+x+", a)", "("+x+") + a", "a + ("+x+")", "("+x+")", "-("+x+")",
+			"clamp_min(a, "+x+")", "clamp(a, "+x+", "+x+")", "histogram_quantile("+x+", a)", "("+x+") + 1", "1 > bool ("+x+")", "round(a, "+x+")")
 	case parser.ValueTypeMatrix:
 		out = append(out, "rate("+x+")", "sum(rate("+x+"))", "sum_over_time("+x+") + a")
 	case parser.ValueTypeString:
@@ -806,8 +821,9 @@ func c08Once(q string, data []core.SeriesSpec, w core.Window) (ran, nontrivial b
 	if (o.Path == "fallback") != o.IsPromQuery {
 		return true, false, "counter:wrong-path", fmt.Sprintf("counter says %s but the query object is %s", o.Path, o.QueryType)
 	}
-	exact := o.IsPromQuery
-	if s, d := core.Diff(ref, o.Res, exact); s != "" {
+	// not bit-exact even on the fallback path: the reference engine itself is not
+	// reproducible to the last bit (e.g. stdvar(a or b) varies between runs)
+	if s, d := core.Diff(ref, o.Res, false); s != "" {
 		if !(hasK(q) && tieEqual(ref, o.Res)) {
 			if o.IsPromQuery {
 				return true, true, "fallback-on:" + s, d
